@@ -217,11 +217,10 @@ fn apply(t: &mut TextArchive, m: &mut Model, op: u8) {
     }
 }
 
-fn histories(steps: usize) {
+fn histories(steps: usize, prefilled: bool) -> usize {
     let mut t = TextArchive::new(TextArchiveFormat::ShiftJIS, Endian::Little);
     let mut m = Model { order: [0; 3], len: 0, value: [0; 3] };
     assert!(!t.is_dirty(), "C07: a new archive must not be dirty");
-    let prefilled: bool = kani::any();
     if prefilled {
         t.set_message("a", "");
         t.set_message("b", "");
@@ -248,23 +247,38 @@ fn histories(steps: usize) {
     if any_set {
         assert!(t.is_dirty(), "C07: the dirty flag must be set after any set");
     }
-    kani::cover!(prefilled && m.len == 1);
-    kani::cover!(!prefilled && m.len == 2);
     std::mem::forget(t);
+    m.len
 }
 
 // @tier quick
 // @timeout 1800
-// @mem 24
-// @bounds every history of 2 operations from {set(k,m), delete(k)} over keys {a,b,c} and messages {"","2"} (9 operations per step, symbolic), starting from the empty archive or from set(a), set(b), set(c) (solver-chosen)
+// @mem 16
+// @bounds every history of 2 operations from {set(k,m), delete(k)} over keys {a,b,c} and messages {"","2"} (9 operations per step, symbolic), starting from the empty archive
 // @unwindset memchr=40
-// @claims after any such history the archive lists exactly the surviving keys in order of first insertion (re-setting keeps the place, deleting never reorders, re-adding appends), lookups return the last value set, has_message agrees; the dirty flag is clear on a new archive and set after any set
+// @claims after any such history the archive lists exactly the surviving keys in order of first insertion (re-setting keeps the place, deleting never reorders, re-adding appends), lookups return the last value set, has_message agrees; the dirty flag is clear on a new archive and set after any set (a set that stores an empty message on a new key included)
 // @assume IndexMap model of --cfg mila_verif (insertion order, shift_remove / swap_remove with their documented semantics)
 #[kani::proof]
 #[kani::unwind(8)]
 #[kani::stub(core::slice::memchr::memchr, crate::stubs::memchr_model)]
 fn c07_ordered_map_histories() {
-    histories(2);
+    let n = histories(2, false);
+    kani::cover!(n == 2);
+}
+
+// @tier quick
+// @timeout 1800
+// @mem 16
+// @bounds as c07_ordered_map_histories, starting from set(a), set(b), set(c)
+// @unwindset memchr=40
+// @claims as c07_ordered_map_histories (deleting from and re-adding to a populated archive)
+// @assume IndexMap model of --cfg mila_verif (insertion order, shift_remove / swap_remove with their documented semantics)
+#[kani::proof]
+#[kani::unwind(8)]
+#[kani::stub(core::slice::memchr::memchr, crate::stubs::memchr_model)]
+fn c07_ordered_map_histories_prefilled() {
+    let n = histories(2, true);
+    kani::cover!(n == 1);
 }
 
 // @tier offline
@@ -279,7 +293,9 @@ fn c07_ordered_map_histories() {
 #[kani::unwind(8)]
 #[kani::stub(core::slice::memchr::memchr, crate::stubs::memchr_model)]
 fn c07_ordered_map_histories_3() {
-    histories(3);
+    let p: bool = kani::any();
+    let n = histories(3, p);
+    kani::cover!(n == 1);
 }
 
 fn escape_case(input: &str, stored: &str, looked_up: &str) {
